@@ -488,6 +488,22 @@ func runC20(p *eng.Prog, r *eng.Report, tier string) {
 		}
 	}
 	c.r.Check("C20.3", f, "FORM_TYPE", "G: the FORM_TYPE field is not hashed as a field; its value is the form's type", f.Pos(), okFT, "FORM_TYPE arm appends to the field list or does not read the value")
+	// ... whatever its declared type (result forms usually omit the type
+	// attribute): the append to the field list is dominated by Var != FORM_TYPE
+	nAppFT := 0
+	for _, l := range f.Lits {
+		lg := l.Graph()
+		for _, cl := range l.Calls("builtin.append") {
+			if len(cl.Args) != 2 || !strings.HasSuffix(l.Norm(cl.Args[1], nil), ".Var") {
+				continue
+			}
+			nAppFT++
+			pt, _ := lg.Where(cl)
+			okd, why := lg.DominatedAny(pt, []string{"!eq(p0.Var,\"FORM_TYPE\")"})
+			c.r.Check("C20.3", l, "field name appended to the list of hashed fields", "G: a field called FORM_TYPE is never hashed as an ordinary field: the append is dominated by Var != \"FORM_TYPE\"", cl.Pos(), okd, why)
+		}
+	}
+	c.r.Floor("C20.3", "appends of field names in AppendHash", nAppFT, 1)
 
 	// ---- C20.4 -------------------------------------------------------------------------------------
 	hf := c.fn("C20.4", "disco", "Info.Hash")
